@@ -177,7 +177,8 @@ def check_retry(ctx, fb):
             form = form or "recursion"
             counter = P(2)
             g = guard[0] if guard else None
-            bounded = g is not None and ((g[0][1][1] == "Ge" and g[1] is False) or (g[0][1][1] == "Lt" and g[1] is True)) and cint(g[0][1][3]) is not None and cint(g[0][1][3]) <= 10
+            ub = const_upper_bound(p.conds(), P(2))
+            bounded = ub is not None and ub <= 10
             if not bounded:
                 ok, why = False, "the store is opened on a path not dominated by `tries < 10` (guard: %s)" % (sh(g[0], 60) if g else None)
         again = bool(selfc) or (p.kind == "backedge" and bool(opens))
